@@ -123,7 +123,12 @@ def histories(draw, max_ops=40, big=False, cls='continuous', scattered=None,
         elif k < 11:
             ops.append(['finish_bulk', draw(st.integers(0, 7)), draw(st.integers(2, 4))])
         elif k < 13:
-            ops.append(['cancel', draw(st.lists(st.integers(0, 40), min_size=1, max_size=3))])
+            if draw(st.integers(0, 2)) == 0:
+                # the request arrives while the tasks still sit in the scheduler's input queue
+                ops.append(['submit_cancel', draw(st.lists(spec, min_size=1, max_size=4)),
+                            draw(st.lists(st.integers(0, 3), min_size=1, max_size=2))])
+            else:
+                ops.append(['cancel', draw(st.lists(st.integers(0, 40), min_size=1, max_size=3))])
         elif k < 16:
             ops.append(['step', draw(st.integers(1, 12))])
         elif k < 18:
@@ -161,6 +166,9 @@ def normalise(case):
             if op[0] in ('finish', 'step') and len(op) < 2:
                 continue
             if op[0] == 'cancel' and (len(op) < 2 or not op[1]):
+                continue
+            if op[0] == 'submit_cancel' and (len(op) < 3 or not isinstance(op[1], list) or not op[1]
+                                             or not isinstance(op[2], list) or not op[2]):
                 continue
             if op[0] == 'env' and len(op) < 2:
                 continue
